@@ -473,7 +473,14 @@ def penalize(A: spmatrix,
     """
     b, x, I, D = _init_bc(A, b, x, I, D)
 
-    Aout = A if overwrite else A.copy()
+    if A.format == 'bsr':
+        # setdiag is not available for BSR matrices
+        if overwrite:
+            raise ValueError("overwrite=True is not supported for BSR "
+                             "matrices.")
+        Aout = A.tocsr()
+    else:
+        Aout = A if overwrite else A.copy()
 
     d = Aout.diagonal()
     if epsilon is None:
@@ -621,6 +628,12 @@ def condense(A: spmatrix,
     """
     b, x, I, D = _init_bc(A, b, x, I, D)
 
+    # COO, DIA and BSR matrices cannot be indexed
+    if A.format in ('coo', 'dia', 'bsr'):
+        A = A.tocsr()
+    if isinstance(b, spmatrix) and b.format in ('coo', 'dia', 'bsr'):
+        b = b.tocsr()
+
     ret_value: CondensedSystem = (None,)
 
     if b is None:
@@ -678,6 +691,10 @@ def mpc(A: spmatrix,
 
     if T.shape[0] != len(S) or T.shape[1] != len(M) or len(g) != len(S):
         raise ValueError("Inputs to mpc have incompatible shapes.")
+
+    # COO, DIA and BSR matrices cannot be indexed
+    if A.format in ('coo', 'dia', 'bsr'):
+        A = A.tocsr()
 
     B = bmat([
         [
